@@ -74,6 +74,9 @@ def leaves(mode, tier):
     out.append(("BigText", lambda: urwid.BigText("1", urwid.Thin3x3Font())))
     out.append(("BigText[half]", lambda: urwid.BigText("a1", urwid.HalfBlock5x4Font())))
     out.append(("BarGraph", lambda: _bargraph()))
+    out.append(("BarGraph[hlines]", lambda: _bargraph([33, 32, 31, 5, 5])))
+    out.append(("BarGraph[2-series,hlines]", lambda: _bargraph([50], two=True)))
+    out.append(("GraphVScale", lambda: urwid.GraphVScale([(10, "10"), (9, "9"), (5, "5")], 10)))
     out.append(("ListBox", lambda: urwid.ListBox(urwid.SimpleFocusListWalker([T("a"), urwid.Edit("", "b"), T("c\nd")]))))
     out.append(("ListBox[empty]", lambda: urwid.ListBox(urwid.SimpleFocusListWalker([]))))
     out.append(("Pile[empty]", lambda: urwid.Pile([])))
@@ -82,9 +85,16 @@ def leaves(mode, tier):
     return out
 
 
-def _bargraph():
+def _bargraph(hlines=None, two=False):
+    if two:
+        g = urwid.BarGraph(["bg", "a", "b"], ["hbg", "ha", "hb"])
+        g.set_data([(10, 60), (70, 30), (0, 0), (100, 100)], 100, hlines)
+        return g
     g = urwid.BarGraph(["bg", "a", "b"])
-    g.set_data([(1,), (3,), (2,)], 4)
+    if hlines:
+        g.set_data([(10,), (70,), (40,)], 100, hlines)  # several lines collapse into one screen row at small heights
+    else:
+        g.set_data([(1,), (3,), (2,)], 4)
     return g
 
 
